@@ -174,6 +174,12 @@ def catalogue(spl=None, spl2=None):
         E('Add', E('SMulL', f, D1), E('SMulL', g, D1)), E('Sub', E('SMulL', i2, X1), E('SMulL', im, X1)),
         E('SubS', E('SMulL', Sc('F', Fr(3)), I), Sc('F', Fr(1))), E('AddS', E('SMulR', I, i2), Sc('I', 5)),
         E('Sub', E('DivS', D1, i2), E('DivS', D1, Sc('I', 3))),
+        # integer scalars of other C++ types (unsigned ones must not be negated or subtracted in their own type)
+        E('SubS', X1, Sc('U', 2)), E('SSub', Sc('U', 3), D1), E('SubS', D2, Sc('Z', 2)), E('SSub', Sc('Z', 5), X1),
+        E('AddS', D1, Sc('U', 2)), E('SAdd', Sc('Z', 3), X1), E('SMulL', Sc('U', 3), D1), E('SMulR', X1, Sc('Z', 2)),
+        E('DivS', X1, Sc('U', 3)), E('DivS', D1, Sc('Z', 4)), E('Neg', E('SMulL', Sc('U', 2), X1)),
+        E('SubS', X1, Sc('L', -2)), E('SSub', Sc('H', 3), D1), E('DivS', I, Sc('H', -4)), E('SMulL', Sc('L', 7), D1),
+        E('Sub', E('SubS', X1, Sc('U', 1)), E('SubS', X1, Sc('Z', 4))),
     ]
     if spl is not None:
         V = E('Spl', spl)
@@ -359,6 +365,37 @@ def gen_C02(seed, tier):
             c.spl_eval(1, x)
         c.spl_front(1)
         c.spl_back(1)
+        cases.append(c)
+    # "every spline": also the ones that come out of copies, moves, move assignments onto a live target (source AND
+    # target), cross-order assignment, arithmetic and operator application; each is probed over the whole grid
+    for r in range(4 if tier == 'quick' else 16):
+        n = rng.randint(4, 7)
+        pts = grid_points(rng, n)
+        o = rng.randint(0, 3)
+        c = Case(f"C02h{r}")
+        c.grid_new(0, pts)
+        ws = [w for w in windows(n)]
+        wa = rng.choice([w for w in ws if nint(w) >= 1])
+        wb = rng.choice([w for w in ws if w != wa])
+        mk_spline(c, rng, 1, 0, n, o, w=wa)
+        mk_spline(c, rng, 2, 0, n, o, w=wb)
+        mk_spline(c, rng, 3, 0, n, o, w=rng.choice(ws))
+        mk_spline(c, rng, 4, 0, n, o + 1, w=rng.choice(ws))
+        def probe(d):
+            c.spl_front(d); c.spl_back(d)
+            for x in eval_points(pts, (0, n)):
+                c.spl_eval(d, x)
+        c.spl_copy(5, 1); probe(5)
+        c.spl_move(6, 5); probe(6); probe(5)                    # move construction: target and moved-from source
+        c.spl_copy(7, 2)
+        c.spl_move_assign(7, 1); probe(7); probe(1)             # move assignment onto a live target
+        c.spl_move_assign(1, 3); probe(1); probe(3)             # ... onto a moved-from object
+        c.spl_assign_up(4, 2); probe(4); probe(2)               # cross-order assignment
+        c.spl_add(8, 7, 2); probe(8)
+        c.spl_mul(9, 7, 2); probe(9)
+        c.apply(10, E('Add', E('Pos', 1), E('Der', 1)), 7); probe(10)
+        c.spl_empty(11, o, 0); probe(11)
+        c.spl_move_assign(11, 7); probe(11); probe(7)
         cases.append(c)
     return cases
 
@@ -989,6 +1026,16 @@ def gen_history(rng, cid, length, show_every=True):
     c.grid_new(1, pts)                                  # equal, distinct object
     c.grid_new(2, grid_points(rng, rng.randint(2, 5)))   # a different grid
     gsize = {0: n, 1: n, 2: len(c.lines[-1].split()) - 3}
+    # refused grid constructions: one defect (equal or decreasing neighbours) at the first, an interior or the LAST
+    # pair, and the two-point cases; a refused construction leaves no object behind
+    for pos in ('first', 'last', 'mid'):
+        m = rng.randint(2, 5)
+        good = grid_points(rng, m)
+        k = {'first': 1, 'last': m - 1, 'mid': rng.randint(1, m - 1)}[pos]
+        bad = list(good)
+        bad[k] = bad[k - 1] if rng.random() < 0.5 else bad[k - 1] - Fr(1, 3)
+        if all(bad[j - 1] < bad[j] for j in range(k + 1, m)) or k == m - 1:
+            c.grid_new(3, bad)
     sups = []       # support slots
     spl = {}        # spline slot -> order
     nxt = [10]
@@ -1105,6 +1152,12 @@ def gen_history(rng, cid, length, show_every=True):
             d = fresh()
             c.spl_lincomb(d, [rand_scalar(rng, False) for _ in range(k)], rng.sample(same, k)); spl[d] = spl[a]
         dump()
+    # single-term and two-term linear combinations through both overloads (consecutive destinations differ in parity)
+    for a in rng.sample(sorted(spl), min(3, len(spl))):
+        for k in (1, 1, 2, 2):
+            d = fresh()
+            c.spl_lincomb(d, [rand_scalar(rng, False) for _ in range(k)], [a] * k); spl[d] = spl[a]
+            dump()
     return c
 
 
